@@ -17,7 +17,8 @@ ASSUMPTIONS = sched.ASSUMPTIONS + ['initial environment: every task absent, or p
                                    '(covers lost wake-ups, join on a dead worker, workers left blocked after the master returned or raised)']
 OUTSIDE = sched.OUTSIDE
 BOUNDS = {'quick': {'tasks': 2, 'graphs': 'all 3 acyclic labelled graphs on 2 tasks + the three 2-cycles + the hard 3-cycle', 'workers': [1],
-                    'plus': '3-task fan-in hard+soft with 1 worker', 'outcomes': KINDS,
+                    'plus': '3-task hard chain and fan-in hard+soft with 1 worker', 'outcomes': KINDS,
+                    'pristine-queue query': '2-task graphs and 3-task graphs without soft edges',
                     'depth': 'every run, first K = 22+11N+6W steps'},
           'thorough': {'tasks': '<= 3', 'graphs': 'all 27 acyclic labelled graphs on 3 tasks (W=1), 2-task graphs W<=2, cycles',
                        'outcomes': KINDS, 'depth': 'W=1: K = 22+11N+6W established by the unwinding query (every run is complete, bounded termination); W=2: first K steps of every run (unwinding query out of reach)'}}
@@ -109,14 +110,16 @@ def init_arbitrary_final(prod):
 
 def prop(an, prod):
     cfg = prod.cfg
+    # a quiescent state persists (the system stutters), so the last step sees every deadlock of the run
+    queries = [(Q1, lambda u: u.at(u.K, props.deadlock(prod)), confirm)]
+    if cfg.n <= 2 or not cfg.soft:
+        # inductive step for calls on a scheduler that was used before: the analysis starts from an empty queue with
+        # no unfinished task, so every terminated run has to give that state back.  (Not asked for 3-task graphs with
+        # soft edges: measured 5 min and more per configuration; the queue accounting does not look at edge kinds.)
+        queries.append((Q2, lambda u: u.at(u.K, z3.And(props.all_terminal(prod),
+                                                       z3.Or(prod.pre['qh'] != prod.pre['qt'], prod.pre['qu'] != 0))), confirm_q2))
     return {'init': init_arbitrary_final, 'may_not_end': True,
-            'model_extra': model_extra(cfg), 'replay_kwargs': replay_kwargs_for(cfg),
-            # a quiescent state persists (the system stutters), so the last step sees every deadlock of the run
-            'queries': [(Q1, lambda u: u.at(u.K, props.deadlock(prod)), confirm),
-                        # inductive step for calls on a scheduler that was used before: the analysis starts from an empty queue with
-                        # no unfinished task, so every terminated run has to give that state back
-                        (Q2, lambda u: u.at(u.K, z3.And(props.all_terminal(prod),
-                                                        z3.Or(prod.pre['qh'] != prod.pre['qt'], prod.pre['qu'] != 0))), confirm_q2)]}
+            'model_extra': model_extra(cfg), 'replay_kwargs': replay_kwargs_for(cfg), 'queries': queries}
 
 
 def replay_kwargs(extra):
@@ -128,7 +131,7 @@ def _job(n, hard, soft, w, tier, seed=0):
 
 
 def jobs(tier):
-    return sched.standard_jobs(tier, _job, cyclic=True, light=True)
+    return sched.standard_jobs(tier, _job, cyclic=True, light=('n2w2-h10-s_', 'n3w1-h10-s21'))
 
 
 def replay(rp):
